@@ -14,10 +14,11 @@ CONSTANTS Family,      \* which run family (string)
           TrackHist,   \* keep the event history (order properties)
           Emit,        \* print one RUN line per terminal state
           MaxSpurious, \* spurious polls per run (schedule emission)
+          Live,        \* count steps and forbid non-terminal dead ends (completion without ENABLED/fairness machinery)
           Reduce       \* partial-order reduction: drops first; sequential layers run the lowest runnable branch
 
-VARIABLES s, sched, hist
-mvars == <<s, sched, hist>>
+VARIABLES s, sched, hist, nsteps
+mvars == <<s, sched, hist, nsteps>>
 
 ---------------------------------------------------------------------------
 \* program construction helpers
@@ -34,8 +35,16 @@ IdOf(b, k, j) == 100 * (b + 1) + 10 * k + j      \* k: step (0-based), j: positi
 Branch(b, name, init, steps) == [name |-> name, init |-> init, iid |-> IidOf(b), steps |-> steps]
 
 Prog(kind, carrier, branches, handler) ==
-  [kind |-> kind, carrier |-> carrier, caller |-> "named", branches |-> branches,
+  [kind |-> kind, carrier |-> carrier, caller |-> "named", macro |-> "", branches |-> branches,
    handler |-> handler, hform |-> "closure", hid |-> 90, hpos |-> Len(branches), opts |-> DefOpts]
+
+\* generic builder: prof = sequence of depths; S(b, k) = items of step k of branch b
+Build(kind, carrier, prof, S(_, _), Nm(_), In(_), h) ==
+  Prog(kind, carrier,
+       [i \in 1 .. Len(prof) |-> Branch(i - 1, Nm(i - 1), In(i - 1), [k \in 1 .. prof[i] |-> S(i - 1, k - 1)])], h)
+NoName(b) == "none"
+ExprInit(b) == "expr"
+DefaultHandler(kind) == IF kind.try THEN "map" ELSE "then"
 
 \* depth profiles: sequences of n depths in 1..d
 Profiles(nmax, dmax) == UNION {[1 .. n -> 1 .. dmax] : n \in 1 .. nmax}
@@ -50,6 +59,7 @@ ItemIds(P, ops) ==
   UNION {UNION {{Items(P, b, k)[j].id : j \in {x \in 1 .. Len(Items(P, b, k)) : Items(P, b, k)[x].op \in ops}}
                : k \in 0 .. (Depth(P, b) - 1)} : b \in BrSet(P)}
 InitIds(P) == {P.branches[b + 1].iid : b \in BrSet(P)}
+AllItemIds(P) == ItemIds(P, {"map", "and_then", "or_else", "map_err", "then", "inspect", "or", "dot", "filter"})
 
 SubsetsUpTo(S, n) ==
   {{}} \cup (IF n >= 1 THEN {{x} : x \in S} ELSE {})
@@ -96,9 +106,193 @@ FamC05(dummy) ==
   IN  UNION {{Run(ProgC05(kd, pr, v, h, "res"), pl, {}) : pl \in PlansC05(ProgC05(kd, pr, v, h, "res"), v)}
              : kd \in TryKinds, pr \in profs, v \in 0 .. 2, h \in {"none", "map"}}
 
+
+\* ---- C03: barrier under every release / readiness order.  Every and_then is gated.
+StepC03(b, k) ==
+  IF k = 0 THEN <<Item(IdOf(b, 0, 1), "and_then", "call", <<>>)>>
+  ELSE <<Item(IdOf(b, k, 1), "and_then", "block", <<>>), Item(IdOf(b, k, 2), "map", "call", <<>>)>>
+ProfC03 == IF Tier = "quick" THEN {pr \in Profiles(3, 2) : TRUE} ELSE Profiles(3, 3)
+FamC03s(dummy) ==
+  {Run(P, <<>>, ItemIds(P, {"and_then"})) :
+     P \in {Build(Kind(FALSE, t, TRUE), "res", pr, StepC03, NoName, ExprInit, "none") : t \in BOOLEAN, pr \in ProfC03}}
+FamC03a(dummy) ==
+  {Run(P, <<>>, ItemIds(P, {"and_then"})) :
+     P \in {Build(Kind(TRUE, t, sp), "res", pr, StepC03, NoName, ExprInit, "none") :
+              t \in BOOLEAN, sp \in BOOLEAN, pr \in {q \in ProfC03 : Tier # "quick" \/ Len(q) <= 2 \/ q = <<2, 1, 2>>}}}
+\* sequential macros and small concurrent ones with the full history (order invariants)
+FamC03h(dummy) ==
+  {Run(P, <<>>, IF P.kind.spawn \/ P.kind.async THEN ItemIds(P, {"and_then"}) ELSE {}) :
+     P \in {Build(kd, "res", pr, StepC03, NoName, ExprInit, "none") : kd \in {q \in Kinds8 : ~q.spawn}, pr \in {<<2, 2>>, <<1, 2>>, <<2, 1, 2>>}}}
+
+\* ---- C06: abort.  Later steps carry captures, call operands and a handler.
+StepC06(b, k) ==
+  IF k = 0 THEN <<Item(IdOf(b, 0, 1), "and_then", "closure", <<>>)>>
+  ELSE <<Item(IdOf(b, k, 1), "and_then", "block", <<>>), Item(IdOf(b, k, 2), "map", "call", <<>>)>>
+FamC06(dummy) ==
+  UNION {{Run(P, pl, IF P.kind.spawn /\ ~P.kind.async THEN ItemIds(P, {"and_then"}) ELSE {}) :
+            pl \in FailPlans(ItemIds(P, {"and_then"}), IF Tier = "quick" THEN 1 ELSE 2)} :
+         P \in {Build(kd, "res", pr, StepC06, NoName, ExprInit, "map") : kd \in TryKinds,
+                  pr \in IF Tier = "quick" THEN {<<2, 2>>, <<1, 3>>, <<3, 1, 2>>, <<2, 3, 3>>} ELSE Profiles(3, 3)}}
+FamC06h(dummy) ==
+  UNION {{Run(P, pl, {}) : pl \in FailPlans(ItemIds(P, {"and_then"}), 2)} :
+         P \in {Build(kd, "res", pr, StepC06, NoName, ExprInit, "map") : kd \in {q \in TryKinds : ~q.spawn}, pr \in {<<2, 2>>, <<1, 3>>, <<3, 1, 2>>}}}
+
+\* ---- C07: every macro name, aliases included, on a mixed corpus
+MacroNames(kind) ==
+  LET base == (IF kind.try THEN "try_" ELSE "") \o "join" \o (IF kind.async THEN "_async" ELSE "") \o (IF kind.spawn THEN "_spawn" ELSE "")
+      alias == (IF kind.try THEN "try_" ELSE "") \o (IF kind.async THEN "async_" ELSE "") \o "spawn"
+  IN  IF kind.spawn THEN {base, alias} ELSE {base}
+StepC07(b, k) == <<Item(IdOf(b, k, 1), "and_then", IF k = 1 THEN "block" ELSE "closure", <<>>), Item(IdOf(b, k, 2), "or_else", "closure", <<>>)>>
+FamC07(dummy) ==
+  UNION {UNION {{Run([P EXCEPT !.macro = m], pl, {}) : m \in MacroNames(P.kind)} :
+                pl \in FailPlans(ItemIds(P, {"and_then"}), 1) \cup {<<F(IdOf(0, 0, 1)), Rcv(IdOf(0, 0, 2))>>}} :
+         P \in {Build(kd, "res", pr, StepC07, NoName, ExprInit, IF h = "dflt" THEN DefaultHandler(kd) ELSE "none") : kd \in Kinds8,
+                  pr \in IF Tier = "quick" THEN {<<1>>, <<2, 1>>, <<1, 2, 2>>} ELSE Profiles(3, 2),
+                  h \in {"none", "dflt"}}}
+
+\* ---- C08: thread identity.  The first item of every (branch, step) is gated, so all threads of a
+\* step must be alive at the same time; named and unnamed callers.
+StepC08(b, k) == <<Item(IdOf(b, k, 1), "and_then", "closure", <<>>), Item(IdOf(b, k, 2), "map", "closure", <<>>)>>
+FamC08(dummy) ==
+  {Run([P EXCEPT !.caller = c], <<>>, ItemIds(P, {"and_then"})) :
+     c \in {"named", "unnamed"},
+     P \in {Build(Kind(FALSE, t, TRUE), "res", pr, StepC08, NoName, ExprInit, "none") : t \in BOOLEAN,
+              pr \in IF Tier = "quick" THEN {<<1>>, <<1, 1>>, <<2, 1>>, <<1, 2, 2>>, <<3, 1, 2>>, <<2, 2, 2>>} ELSE Profiles(4, 2) \cup Profiles(3, 3)}}
+
+\* ---- C09: async laziness / independence / wake-ups / completion.  Gates on initial futures, on
+\* and_then / or_else / then futures and on the handler future.
+StepC09(b, k) ==
+  IF (b + k) % 2 = 0 THEN <<Item(IdOf(b, k, 1), "and_then", "closure", <<>>), Item(IdOf(b, k, 2), "map", "closure", <<>>)>>
+  ELSE <<Item(IdOf(b, k, 1), "then", "closure", <<>>), Item(IdOf(b, k, 2), "and_then", "closure", <<>>)>>
+FamC09(dummy) ==
+  UNION {{Run(P, <<>>, G) : G \in {ItemIds(P, {"and_then"}), InitIds(P) \cup {90}, ItemIds(P, {"then"}) \cup {IidOf(0)}}} :
+         P \in {Build(Kind(TRUE, t, sp), "res", pr, StepC09, NoName, ExprInit, IF t THEN "and_then" ELSE "then") :
+                  t \in BOOLEAN, sp \in BOOLEAN,
+                  pr \in IF Tier = "quick" THEN {<<1>>, <<2>>, <<1, 1>>, <<2, 1>>, <<1, 2>>} ELSE Profiles(2, 3) \cup {<<1, 1, 1>>, <<2, 1, 2>>}}}
+
+\* ---- C10: every operator class, every operand form, faults and recoveries
+StepC10(b, k) ==
+  CASE (b + k) % 3 = 0 -> <<Item(IdOf(b, k, 1), "map", "call", <<>>), Item(IdOf(b, k, 2), "and_then", "closure", <<>>),
+                            Item(IdOf(b, k, 3), "inspect", "closure", <<>>), Item(IdOf(b, k, 4), "or_else", "call", <<>>)>>
+    [] (b + k) % 3 = 1 -> <<Item(IdOf(b, k, 1), "then", "closure", <<>>), Item(IdOf(b, k, 2), "map_err", "closure", <<>>),
+                            Item(IdOf(b, k, 3), "and_then", IF k > 0 THEN "block" ELSE "call", <<>>)>>
+    [] OTHER -> <<Item(IdOf(b, k, 1), "and_then", "closure", <<>>), Item(IdOf(b, k, 2), "or", "call", <<>>),
+                  Item(IdOf(b, k, 3), "dot", "closure", <<>>), Item(IdOf(b, k, 4), "inspect", IF k > 0 THEN "block" ELSE "closure", <<>>)>>
+StepC10a(b, k) ==  \* async subset (no `or`, no `dot`)
+  CASE (b + k) % 2 = 0 -> <<Item(IdOf(b, k, 1), "map", "call", <<>>), Item(IdOf(b, k, 2), "and_then", "closure", <<>>),
+                            Item(IdOf(b, k, 3), "inspect", "closure", <<>>), Item(IdOf(b, k, 4), "or_else", "call", <<>>)>>
+    [] OTHER -> <<Item(IdOf(b, k, 1), "then", "closure", <<>>), Item(IdOf(b, k, 2), "map_err", "closure", <<>>),
+                  Item(IdOf(b, k, 3), "and_then", IF k > 0 THEN "block" ELSE "call", <<>>)>>
+StepC10o(b, k) ==  \* Option carrier
+  <<Item(IdOf(b, k, 1), "and_then", "closure", <<>>), Item(IdOf(b, k, 2), "filter", "closure", <<>>),
+    Item(IdOf(b, k, 3), "or_else", "closure", <<>>), Item(IdOf(b, k, 4), "map", "call", <<>>), Item(IdOf(b, k, 5), "or", "call", <<>>)>>
+PlansC10(P) ==
+  LET fi == ItemIds(P, {"and_then", "then", "filter"}) \cup InitIds(P)
+      ri == ItemIds(P, {"or_else", "then"})
+      oi == ItemIds(P, {"or"})
+  IN  {<<>>} \cup {<<F(x)>> : x \in fi} \cup {pl \in {<<F(x), Rcv(y)>> : x \in fi, y \in ri} : pl[1].id # pl[2].id} \cup {<<F(x), F(y)>> : x \in fi, y \in oi}
+ProfC10 == IF Tier = "quick" THEN {<<1>>, <<2, 1>>, <<1, 2, 2>>} ELSE Profiles(3, 2) \cup {<<3, 1>>, <<1, 3, 2>>}
+FamC10(dummy) ==
+  UNION {{Run(P, pl, {}) : pl \in PlansC10(P)} :
+         P \in {Build(kd, "res", pr, StepC10, NoName, ExprInit, DefaultHandler(kd)) : kd \in SyncKinds, pr \in ProfC10}
+               \cup {Build(kd, "res", pr, StepC10a, NoName, ExprInit, DefaultHandler(kd)) : kd \in Kinds8 \ SyncKinds, pr \in ProfC10}
+               \cup {Build(kd, "opt", pr, StepC10o, NoName, ExprInit, "none") : kd \in {Kind(FALSE, t, FALSE) : t \in BOOLEAN}, pr \in ProfC10}}
+
+\* ---- C11: block operands: one operator at a time, in step k0, in several branches, initial blocks
+OpsC11 == {"map", "and_then", "or_else", "map_err", "then", "inspect"}
+StepC11(op, k0, b, k) ==
+  IF k = k0 THEN <<Item(IdOf(b, k, 1), "and_then", "closure", <<>>), Item(IdOf(b, k, 2), op, "block", <<>>), Item(IdOf(b, k, 3), "map", "block", <<>>)>>
+  ELSE <<Item(IdOf(b, k, 1), "map", IF b = 1 THEN "block" ELSE "call", <<>>)>>
+ProgC11(kd, op, k0, pr) ==
+  LET S(b, k) == StepC11(op, k0, b, k)  In(b) == IF b % 2 = 0 THEN "block" ELSE "expr"
+  IN  Build(kd, "res", pr, S, NoName, In, "none")
+FamC11(dummy) ==
+  UNION {{Run(P, pl, {}) : pl \in {<<>>, <<F(IdOf(0, 0, 1))>>}} :
+         P \in {ProgC11(kd, op, k0, pr) : kd \in Kinds8, op \in OpsC11, k0 \in 0 .. 2,
+                  pr \in IF Tier = "quick" THEN {<<3>>, <<3, 3>>, <<2, 3, 3>>} ELSE {<<3>>, <<3, 3>>, <<2, 3, 3>>, <<3, 1, 3>>, <<3, 3, 3>>}}}
+
+\* ---- C12: let names.  Every capture of a step >= 1 reads every named branch.
+ProgC12(kd, pr, named, mut) ==
+  LET rd == SetToSeq({b \in 0 .. (Len(pr) - 1) : b \in named})
+      S(b, k) == IF k = 0 THEN <<Item(IdOf(b, 0, 1), "and_then", "closure", <<>>)>>
+                 ELSE <<Item(IdOf(b, k, 1), "and_then", "block", rd), Item(IdOf(b, k, 2), "or_else", "closure", <<>>)>>
+      Nm(b) == IF b \in named THEN (IF mut THEN "letmut" ELSE "let") ELSE "none"
+  IN  Build(kd, "res", pr, S, Nm, ExprInit, "none")
+FamC12(dummy) ==
+  UNION {{Run(P, pl, {}) : pl \in {<<>>} \cup (IF P.kind.try THEN {} ELSE {<<F(IdOf(0, 0, 1))>>, <<F(IdOf(1, 0, 1))>>})} :
+         P \in {ProgC12(kd, pr, named, mut) : kd \in Kinds8, mut \in BOOLEAN,
+                  pr \in IF Tier = "quick" THEN {<<2, 2>>, <<1, 3>>, <<2, 1, 3>>, <<3, 3, 1>>} ELSE {q \in Profiles(3, 3) : \E i \in 1 .. Len(q) : q[i] > 1},
+                  named \in (SUBSET {0, 1, 2})}}
+
+\* ---- C13: handlers: kind x handler x outcome x position x form; async handler futures gated
+ProgC13(kd, n, h, pos, form) ==
+  LET S(b, k) == <<Item(IdOf(b, k, 1), "and_then", "closure", <<>>)>>
+      P == Build(kd, "res", [i \in 1 .. n |-> IF i = 2 THEN 2 ELSE 1], S, NoName, ExprInit, h)
+  IN  [P EXCEPT !.hpos = pos, !.hform = form]
+FamC13(dummy) ==
+  UNION {{Run(P, pl, G) :
+            pl \in {<<>>, <<[t |-> "hc", id |-> 0, a |-> "fail"]>>} \cup {<<F(x)>> : x \in ItemIds(P, {"and_then"})},
+            G \in IF P.kind.async /\ P.handler \in {"then", "and_then"} THEN {{}, {90}} ELSE {{}}} :
+         P \in {q \in {ProgC13(kd, n, h, pos, form) : kd \in Kinds8, n \in 1 .. (IF Tier = "quick" THEN 3 ELSE 4),
+                               h \in {"map", "and_then", "then"}, pos \in 0 .. 4, form \in {"closure", "call"}} :
+                   /\ (q.kind.try => q.handler # "then") /\ (~q.kind.try => q.handler = "then") /\ q.hpos <= NB(q)}}
+
+\* ---- C16: options: custom joiner (eager / lazy), lazy_branches, crate path, on programs whose
+\* active-branch count changes between steps
+StepC16(b, k) == <<Item(IdOf(b, k, 1), "and_then", IF k = 1 THEN "block" ELSE "call", <<>>)>>
+OptsC16(kd) ==
+  {[joiner |-> j, lazy |-> l, transpose |-> "default", path |-> p] :
+     j \in {"none", "eager", "lazy"}, l \in {"default", "true", "false"}, p \in {"default", "custom"}}
+OkOpts(kd, o) ==
+  /\ (o.path = "custom" => kd.async)
+  /\ (o.joiner = "lazy" <=> (o.lazy = "true" /\ ~(kd.spawn /\ ~kd.async)))   \* a lazy joiner calls closures
+  /\ (kd.spawn /\ ~kd.async => o.lazy # "false")                             \* thread::spawn needs a closure
+  /\ (o.lazy = "true" /\ o.joiner = "none" => (kd.spawn /\ ~kd.async))       \* closures need somebody to call them
+  /\ (kd.spawn /\ ~kd.async => o.joiner # "lazy")
+  /\ (kd.spawn /\ kd.async => o.lazy # "true")                              \* tokio::spawn needs a future
+FamC16(dummy) ==
+  UNION {{Run([P EXCEPT !.opts = o], pl, {}) : pl \in {<<>>} \cup {<<F(x)>> : x \in ItemIds(P, {"and_then"})},
+                                                o \in {q \in OptsC16(P.kind) : OkOpts(P.kind, q)}} :
+         P \in {Build(kd, "res", pr, StepC16, NoName, ExprInit, "none") : kd \in Kinds8,
+                  pr \in IF Tier = "quick" THEN {<<1>>, <<2, 2>>, <<3, 1, 2>>} ELSE {<<1>>, <<2, 2>>, <<3, 1, 2>>, <<1, 3, 2>>, <<2, 3, 3>>}}}
+
+\* ---- C18: a panic at every single position of a mixed corpus
+StepC18(b, k) ==
+  IF k = 0 THEN <<Item(IdOf(b, 0, 1), "and_then", "call", <<>>)>>
+  ELSE <<Item(IdOf(b, k, 1), "and_then", "block", <<>>), Item(IdOf(b, k, 2), "map", "closure", <<>>)>>
+Pn(t, id) == [t |-> t, id |-> id, a |-> "panic"]
+PanicPlans(P) ==
+  {<<Pn("f", x)>> : x \in AllItemIds(P)} \cup {<<Pn("i", x)>> : x \in InitIds(P)}
+  \cup {<<Pn("o", x)>> : x \in ItemIds(P, {"and_then"}) \cap {IdOf(b, 0, 1) : b \in BrSet(P)}}
+  \cup {<<Pn("c", x)>> : x \in {IdOf(b, k, 1) : b \in BrSet(P), k \in 1 .. 3} \cap AllItemIds(P)}
+  \cup {<<Pn("hx", 0)>>, <<Pn("hc", 0)>>}
+  \cup (IF P.kind.async THEN {<<Pn("hf", 0)>>} ELSE {})
+FamC18(dummy) ==
+  UNION {{Run(P, pl, IF P.kind.spawn /\ ~P.kind.async THEN {IdOf(b, 0, 1) : b \in BrSet(P)} ELSE {}) : pl \in PanicPlans(P)} :
+         P \in {[Build(kd, "res", pr, StepC18, NoName, ExprInit, IF kd.try THEN "and_then" ELSE "then") EXCEPT !.hform = "call"] :
+                  kd \in Kinds8, pr \in IF Tier = "quick" THEN {<<2>>, <<1, 2>>, <<2, 1, 2>>} ELSE Profiles(3, 2) \cup {<<3, 1, 2>>}}}
+
 Runs(dummy) ==
   TLCEval(CASE Family = "C04" -> FamC04(0)
-            [] Family = "C05" -> FamC05(0))
+            [] Family = "C05" -> FamC05(0)
+            [] Family = "C03s" -> FamC03s(0)
+            [] Family = "C03a" -> FamC03a(0)
+            [] Family = "C03h" -> FamC03h(0)
+            [] Family = "C06" -> FamC06(0)
+            [] Family = "C06h" -> FamC06h(0)
+            [] Family = "C07" -> FamC07(0)
+            [] Family = "C08" -> FamC08(0)
+            [] Family = "C09" -> FamC09(0)
+            [] Family = "C10" -> FamC10(0)
+            [] Family = "C11" -> FamC11(0)
+            [] Family = "C12" -> FamC12(0)
+            [] Family = "C13" -> FamC13(0)
+            [] Family = "C16" -> FamC16(0)
+            [] Family = "C18" -> FamC18(0)
+            [] Family = "C13l" -> {r \in FamC13(0) : r.prog.kind.async /\ r.gates # {}}
+            [] Family = "C11h" -> {r \in FamC11(0) : NB(r.prog) <= 2 /\ ~r.prog.kind.spawn}
+            [] Family = "C13h" -> {r \in FamC13(0) : NB(r.prog) <= 2 /\ ~r.prog.kind.spawn}
+            [] Family = "C10h" -> {r \in FamC10(0) : NB(r.prog) <= 2 /\ ~r.prog.kind.spawn})
 
 ---------------------------------------------------------------------------
 \* the machine
@@ -108,14 +302,15 @@ Init ==
   /\ s = [ph |-> "pick"]
   /\ sched = <<>>
   /\ hist = <<>>
+  /\ nsteps = 0
 
 Pick ==
   /\ s.ph = "pick"
   /\ \E r \in Runs(0) : s' = InitState(r.prog, r.plan, r.gates)
-  /\ UNCHANGED <<sched, hist>>
+  /\ UNCHANGED <<sched, hist, nsteps>>
 
 ArrivedSet(st) ==
-  {IdAt(st, b) : b \in {c \in Active(st.prog, st.k) \ st.ended : st.pc[c].ph \in {"w", "x"} /\ st.arrived[c]}}
+  {IdAt(st, b) : b \in {c \in Active(st.prog, st.k) \ st.ended : st.pc[c].ph \in {"w", "x"} /\ st.arrived[c] /\ c # st.pb}}
   \cup (IF st.ph = "hawait" /\ st.hparked THEN {st.prog.hid} ELSE {})
 
 QuiescentNow == BranchEvents(s) = {} /\ StepEvents(s) = {} /\ HandlerEvents(s) = {}
@@ -127,6 +322,9 @@ Spurious(q) == Cardinality({i \in 1 .. Len(q) : q[i].a = "poll" /\ q[i].hold})
 \* sequential macro (or of one poll of a plain async macro) do not interleave in reality.
 Reduced(e) ==
   LET P == s.prog IN
+  \* the handler expression is evaluated first by the code; no property pins that, so the trace
+  \* specification leaves it free, but emitted schedules must be realisable
+  /\ (\E h \in HandlerEvents(s) : h.ev = "hexpr") => e.ev = "hexpr"
   /\ (s.garbage # {} /\ ~s.dropsFree) => (e.ev = "drop" /\ \A v \in s.garbage : <<e.v.b, e.v.n>> = <<v.b, v.n>> \/ e.v.b < v.b \/ (e.v.b = v.b /\ e.v.n <= v.n))
   /\ (e.b >= 0 /\ e.ev \in {"init", "opnd", "enter", "arrive", "exit", "panic"}
       /\ (~IsSpawn(P) \/ Cardinality(Active(P, s.k)) < 2))
@@ -135,7 +333,9 @@ Reduced(e) ==
 Step ==
   \E e \in NextEvents(s) :
      /\ Reduce => Reduced(e)
-     /\ (e.ev = "poll" /\ Quiescent) => (~s.polled \/ s.woken \/ s.sinceWake \/ Spurious(sched) < MaxSpurious)
+     /\ (e.ev = "poll" /\ Quiescent) =>
+           /\ (~s.polled \/ s.woken \/ s.sinceWake \/ Spurious(sched) < MaxSpurious)
+           /\ (IsTasks(s.prog) => BranchEvents(s) = {})     \* the harness lets tasks run to quiescence first
      /\ s' = Apply(s, e)
      /\ hist' = IF TrackHist THEN Append(hist, [ev |-> e.ev, id |-> e.id, b |-> e.b, k |-> s.k]) ELSE hist
      /\ sched' = IF e.ev = "pollend" /\ Emit
@@ -157,12 +357,19 @@ Release ==
 Ready ==
   /\ IsAsync(s.prog) /\ ~s.inpoll /\ s.ph \notin {"new", "created0", "ended", "closed"} /\ ~s.polldone
   /\ \E G \in (SUBSET (s.gates \ s.released)) \ {{}} :
-        /\ Quiescent => G \subseteq ArrivedSet(s)
+        /\ Quiescent => (G \subseteq ArrivedSet(s) /\ BranchEvents(s) = {} /\ (Tier = "quick" => ~s.woken))
         /\ s' = ApplyRelease(s, G)
         /\ sched' = IF ~Emit THEN sched ELSE Append(sched, SE("ready", SetToSeq(G), <<>>, FALSE, FALSE))
         /\ hist' = hist
 
-Next == IF s.ph = "pick" THEN Pick ELSE (Step \/ Release \/ Ready)
+\* Completion (C09, C18) without fairness machinery: in the quiescent-point environment every step is
+\* counted; if the counter stays below a bound on every path there is no cycle, and if the only states
+\* without a successor are terminal ones (TLC's deadlock check, Done states stutter explicitly) then every
+\* maximal path ends with the evaluation completed.
+Finish == Live /\ Done(s) /\ UNCHANGED mvars
+Next == IF s.ph = "pick" THEN Pick
+        ELSE ((Step \/ Release \/ Ready) /\ nsteps' = IF Live THEN nsteps + 1 ELSE nsteps) \/ Finish
+Bounded == nsteps < 400
 
 Spec == Init /\ [][Next]_mvars
 
@@ -234,6 +441,39 @@ BarrierInv ==
     \A i, j \in 1 .. Len(hist) :
        (i < j /\ hist[i].ev \in {"init", "opnd", "cap", "enter"} /\ hist[j].ev \in {"exit", "enter", "init", "opnd"}
         /\ hist[j].b >= 0) => hist[i].k <= hist[j].k
+
+\* C11: the captures of a step come before every other expression of that step
+CapturesFirst ==
+  TrackHist =>
+    \A i, j \in 1 .. Len(hist) :
+       (i < j /\ hist[j].ev = "cap" /\ hist[i].ev \in {"init", "opnd", "enter", "exit"}) => hist[i].k < hist[j].k
+
+\* C12: a capture of step k sees, under each name, that branch's value after step min(k, depth) - 1
+NamesLatest ==
+  (s.ph = "step" /\ s.capq # <<>> /\ s.k > 0 /\ NoPanic(s.plan)) =>
+     \A i \in 1 .. Len(Head(s.capq).reads) :
+        LET b == Head(s.capq).reads[i] IN s.names[b] = RefAt(s.prog, s.plan, b, s.k - 1)
+
+\* C13: the handler is called at most once, and exactly when the macro kind says so
+HandlerOnce ==
+  (TrackHist /\ s.ph # "pick") =>
+     LET calls == Cardinality({i \in 1 .. Len(hist) : hist[i].ev = "hcall"}) IN
+     /\ calls <= 1
+     /\ (Done(s) /\ NoPanic(s.plan) /\ s.prog.handler # "none") =>
+           calls = (IF IsTry(s.prog) /\ FailSteps(s.prog, s.plan) # {} THEN 0 ELSE 1)
+
+\* C10: every callback the value semantics reach ran exactly once, nothing else ran
+ExactlyOnce ==
+  (TrackHist /\ s.ph # "pick" /\ Done(s) /\ NoPanic(s.plan) /\ ~IsAsync(s.prog)) =>
+     \A i, j \in 1 .. Len(hist) :
+        (i # j /\ hist[i].ev = hist[j].ev /\ hist[i].ev \in {"init", "opnd", "cap", "enter", "exit"}) => hist[i].id # hist[j].id
+
+\* C18: a panic reaches the caller
+PanicSurfaces == (Done(s) /\ s.panicked) => s.res.t = "panicked"
+
+\* C09 / C18: the evaluation always completes (checked under fairness in quiescent mode)
+FairSpec == Init /\ [][Next]_mvars /\ WF_mvars(Next)
+Completes == <>(s.ph \in {"closed", "ended"})
 
 \* everything that was dropped or returned; nothing is left over
 NoLeak == (Done(s) /\ ~s.dropsFree) => s.garbage = {}
